@@ -33,7 +33,7 @@ def spec(tier):
             "seeded random designs (variables inside calls, keyword arguments, nested calls, backquoted names, "
             "interactions, group terms and the response) x missingness patterns (none, one cell, several cells in "
             "one or several used columns incl. categorical / grouping / response columns, a used column missing but "
-            "for two rows, only unused columns) x the three policies (+ invalid policy names). distinct = distinct "
+            "for two rows, only unused columns; the missing value is NaN, or pd.NA in nullable Int64 / Float64 / boolean columns) x the three policies (+ invalid policy names). distinct = distinct "
             "(formula, frame seed, pattern, policy); non-trivial = some used cell is missing."
         ),
         "assumptions": [
